@@ -8,13 +8,16 @@ package redisemu
 // real build (VERIF_REPLAY=<json>), so that nothing is reported unreplayed.
 
 import (
+	"bytes"
 	"encoding/gob"
 	"encoding/json"
 	"fmt"
 	"io"
 	"os"
 	"path/filepath"
+	"runtime"
 	"strconv"
+	"sync/atomic"
 	"time"
 )
 
@@ -170,14 +173,13 @@ func vTier() int {
 	return 0
 }
 
-func vSymbolic() bool             { return false }
-func vIsConcrete(v any) bool      { return true }
-func vNote(s string)              {}
-func vUnsupported(s string)       { panic(vAssumeFailed{}) }
-func vSetEnv(f func(string) bool) {}
-func vRunPending() int            { return 0 }
-func vPendingCount() int          { return 0 }
-func vDropPending()               {}
+func vSymbolic() bool        { return false }
+func vIsConcrete(v any) bool { return true }
+func vNote(s string)         {}
+func vUnsupported(s string)  { panic(vAssumeFailed{}) }
+func vRunPending() int       { return 0 }
+func vPendingCount() int     { return 0 }
+func vDropPending()          {}
 
 // vSetNow fixes the clock seen by the package under test (natively through
 // vTimeNow, which the replay overlay substitutes for time.Now()).
@@ -289,3 +291,94 @@ func (e *vEncoder) Encode(v any) error {
 	}
 	return nil
 }
+
+// ---------------------------------------------------------------------
+// blocking commands: the strand under test runs on its own goroutine; the
+// environment hook is called at the same schedule points as under gosym:
+// at the entry of the lock-taking functions (vSched, inserted by the replay
+// overlay) and whenever the strand is parked in its select.
+
+var (
+	vEnvFn    func(string) bool
+	vInEnv    bool
+	vWaiterID int64 = -1
+	vWaitDone chan any
+)
+
+func vSetEnv(f func(string) bool) { vEnvFn = f }
+
+func vGoID() int64 {
+	var buf [64]byte
+	n := runtime.Stack(buf[:], false)
+	f := bytes.Fields(buf[:n])
+	id, _ := strconv.ParseInt(string(f[1]), 10, 64)
+	return id
+}
+
+func vSched(point string) {
+	if vEnvFn != nil && !vInEnv && vGoID() == atomic.LoadInt64(&vWaiterID) {
+		vInEnv = true
+		vEnvFn(point)
+		vInEnv = false
+	}
+}
+
+// vRunBlockingOn runs f (a command of connection cs that may block) and
+// reports whether it ended parked forever.
+func vRunBlockingOn(cs *clientState, f func()) (parked bool) {
+	vWaitDone = make(chan any, 1)
+	go func() {
+		atomic.StoreInt64(&vWaiterID, vGoID())
+		defer func() { vWaitDone <- recover() }()
+		f()
+	}()
+	stable := 0
+	for {
+		select {
+		case r := <-vWaitDone:
+			atomic.StoreInt64(&vWaiterID, -1)
+			vEnvFn = nil
+			if r != nil {
+				panic(r)
+			}
+			return false
+		case <-time.After(25 * time.Millisecond):
+			if atomic.LoadInt32(&cs.blocked) == CS_CAPTURED && len(cs.unblockCh) == 0 {
+				stable++
+			} else {
+				stable = 0
+			}
+			if stable >= 3 {
+				stable = 0
+				vInEnv = true
+				progressed := vEnvFn != nil && vEnvFn("select")
+				vInEnv = false
+				if !progressed {
+					vEnvFn = nil
+					return true
+				}
+			}
+		}
+	}
+}
+
+// vReleaseWaiter lets a parked strand go at the end of a harness.
+func vReleaseWaiter(cs *clientState) {
+	if vWaitDone == nil {
+		return
+	}
+	cs.unblock("", false)
+	select {
+	case <-vWaitDone:
+	case <-time.After(2 * time.Second):
+	}
+	atomic.StoreInt64(&vWaiterID, -1)
+}
+
+// vFireTimer lets the pending (short) real timer of the strand expire.
+func vFireTimer() bool {
+	time.Sleep(150 * time.Millisecond)
+	return true
+}
+
+func vActiveTimers() int { return 0 }
